@@ -137,3 +137,144 @@ fn replay_c04_verify_implies_valid() {
     for f in failures.iter().take(6) { println!("FAILING-INPUT property=C04 {}", f); }
     assert!(failures.is_empty(), "C04 violated on the real code: {:?}", failures);
 }
+
+// ---------------------------------------------------------------------------------------------------------------
+// C17: quorum arithmetic of the consensus committee, over many stake distributions
+// ---------------------------------------------------------------------------------------------------------------
+fn committee_with_stakes(stakes: &[u32]) -> (Committee, Vec<(PublicKey, SecretKey)>) {
+    let mut rng = StdRng::from_seed([7; 32]);
+    let ks: Vec<(PublicKey, SecretKey)> = stakes.iter().map(|_| generate_keypair(&mut rng)).collect();
+    let info = ks.iter().zip(stakes.iter()).enumerate()
+        .map(|(i, ((pk, _), s))| (*pk, *s, format!("127.0.0.1:{}", 100 + i).parse().unwrap())).collect();
+    (Committee::new(info, 1), ks)
+}
+
+#[test]
+fn replay_c17_quorum_arithmetic() {
+    let mut rng = StdRng::seed_from_u64(seed());
+    let mut failures = Vec::new();
+    let mut cases: Vec<Vec<u32>> = vec![vec![1], vec![1, 1], vec![1, 1, 1, 1], vec![1; 5], vec![1; 6], vec![1; 7], vec![0, 1, 1, 1, 1], vec![100, 1, 1], vec![3, 3, 3], vec![0x7fff_fffe, 1]];
+    for _ in 0..200 {
+        let n = 1 + (rng.next_u32() % 8) as usize;
+        cases.push((0..n).map(|_| rng.next_u32() % 50).collect());
+    }
+    for stakes in cases {
+        let total: u64 = stakes.iter().map(|s| *s as u64).sum();
+        if total == 0 || total >= (1u64 << 31) { continue; }
+        let (c, ks) = committee_with_stakes(&stakes);
+        let q = c.quorum_threshold() as u64;
+        let f = (total - 1) / 3;
+        if !(3 * q > 2 * total && q <= total - f && 2 * q - total > f) {
+            failures.push(format!("stakes {:?}: quorum_threshold() = {} violates q > 2n/3, q <= n-f, 2q-n > f (n = {}, f = {})", stakes, q, total, f));
+        }
+        for ((pk, _), s) in ks.iter().zip(stakes.iter()) {
+            if c.stake(pk) != *s { failures.push(format!("stakes {:?}: stake() of a member is {} instead of {}", stakes, c.stake(pk), s)); }
+        }
+        let (unknown, _) = generate_keypair(&mut StdRng::from_seed([8; 32]));
+        if c.stake(&unknown) != 0 { failures.push(format!("stakes {:?}: unknown authority has stake {}", stakes, c.stake(&unknown))); }
+    }
+    for f in failures.iter().take(4) { println!("FAILING-INPUT property=C17 {}", f); }
+    assert!(failures.is_empty(), "C17 violated on the real code ({} cases)", failures.len());
+}
+
+// ---------------------------------------------------------------------------------------------------------------
+// C19: the real Aggregator against a reference model, over vote sequences with duplicates, several blocks and unequal stakes
+// ---------------------------------------------------------------------------------------------------------------
+#[test]
+fn replay_c19_aggregator_vs_model() {
+    use crate::aggregator::Aggregator;
+    let mut rng = StdRng::seed_from_u64(seed() ^ 0x19);
+    let mut failures = Vec::new();
+    for case in 0..60 {
+        let n = 4 + (rng.next_u32() % 3) as usize;
+        let stakes: Vec<u32> = (0..n).map(|_| 1 + rng.next_u32() % 3).collect();
+        let (c, ks) = committee_with_stakes(&stakes);
+        let q = c.quorum_threshold();
+        let mut agg = Aggregator::new(c.clone());
+        // model: (round, block hash) -> (distinct voters, made?)
+        let mut model: std::collections::HashMap<(Round, [u8; 32]), (Vec<usize>, bool)> = std::collections::HashMap::new();
+        let mut trace = Vec::new();
+        for _ in 0..(3 * n + 4) {
+            let who = (rng.next_u32() as usize) % n;
+            let round = 1 + (rng.next_u32() % 2) as Round;
+            let block = [(rng.next_u32() % 2) as u8; 32];
+            trace.push((who, round, block[0]));
+            let vote = Vote::new_from_key(Digest(block), round, ks[who].0, &ks[who].1);
+            let entry = model.entry((round, block)).or_insert((Vec::new(), false));
+            let dup = entry.0.contains(&who);
+            let res = agg.add_vote(vote);
+            if dup {
+                if res.is_ok() { failures.push(format!("case {} trace {:?}: a repeated vote of authority {} was accepted", case, trace, who)); break; }
+                continue;
+            }
+            entry.0.push(who);
+            let weight: u32 = entry.0.iter().map(|i| stakes[*i]).sum();
+            let expect_qc = !entry.1 && weight >= q;
+            match res {
+                Ok(Some(qc)) => {
+                    if !expect_qc { failures.push(format!("case {} stakes {:?} trace {:?}: QC assembled with distinct stake {} (threshold {}, already made: {})", case, stakes, trace, weight, q, entry.1)); break; }
+                    entry.1 = true;
+                    if qc.verify(&c).is_err() || qc.hash != Digest(block) || qc.round != round {
+                        failures.push(format!("case {} trace {:?}: the assembled QC does not verify or names another block/round", case, trace)); break;
+                    }
+                }
+                Ok(None) => if expect_qc { failures.push(format!("case {} stakes {:?} trace {:?}: no QC although distinct stake {} >= threshold {}", case, stakes, trace, weight, q)); break; },
+                Err(e) => { failures.push(format!("case {} trace {:?}: a first vote was rejected: {}", case, trace, e)); break; }
+            }
+        }
+    }
+    for f in failures.iter().take(4) { println!("FAILING-INPUT property=C19 {}", f); }
+    assert!(failures.is_empty(), "C19 violated on the real code ({} cases)", failures.len());
+}
+
+// ---------------------------------------------------------------------------------------------------------------
+// C20: digests bind content, kinds never coincide, wire round trip keeps the digest
+// ---------------------------------------------------------------------------------------------------------------
+#[test]
+fn replay_c20_digests_bind_content() {
+    let mut rng = StdRng::seed_from_u64(seed() ^ 0x20);
+    let (pk0, sk0) = &keys()[0];
+    let (pk1, _) = &keys()[1];
+    let mut failures = Vec::new();
+    let d = |b: u8| Digest([b; 32]);
+    let base_qc = valid_qc(d(9), 3, &[0, 1, 2]);
+    let base = Block::new_from_key(base_qc.clone(), *pk0, 5, vec![d(1), d(2)], sk0);
+    let mut variants: Vec<(&str, Block)> = vec![
+        ("author", Block { author: *pk1, ..base.clone() }),
+        ("round", Block { round: 6, ..base.clone() }),
+        ("payload element", Block { payload: vec![d(1), d(3)], ..base.clone() }),
+        ("payload order", Block { payload: vec![d(2), d(1)], ..base.clone() }),
+        ("payload shorter", Block { payload: vec![d(1)], ..base.clone() }),
+        ("parent", Block { qc: QC { hash: d(8), ..base_qc.clone() }, ..base.clone() }),
+        // adjacent payload / parent boundary
+        ("payload [1,2,9] with parent moved", Block { payload: vec![d(1), d(2), d(9)], qc: QC { hash: d(7), ..base_qc.clone() }, ..base.clone() }),
+        ("payload [1] and parent 2", Block { payload: vec![d(1)], qc: QC { hash: d(2), ..base_qc.clone() }, ..base.clone() }),
+    ];
+    // boundary case on a block that extends genesis
+    let g1 = Block::new_from_key(QC::genesis(), *pk0, 1, vec![d(5)], sk0);
+    let g2 = Block { payload: Vec::new(), qc: QC { hash: d(5), round: 0, votes: Vec::new() }, ..g1.clone() };
+    if g1.digest() == g2.digest() { failures.push("blocks (payload [X], genesis parent) and (empty payload, parent X) have the same digest".to_string()); }
+    for (what, v) in variants.drain(..) {
+        if v.digest() == base.digest() { failures.push(format!("two blocks differing in [{}] have the same digest", what)); }
+    }
+    let v = Vote::new_from_key(d(4), 7, *pk0, sk0);
+    if (Vote { round: 8, ..v.clone() }).digest() == v.digest() || (Vote { hash: d(5), ..v.clone() }).digest() == v.digest() { failures.push("votes differing in round or hash share a digest".into()); }
+    let t = Timeout::new_from_key(base_qc.clone(), 7, *pk0, sk0);
+    if (Timeout { round: 8, ..t.clone() }).digest() == t.digest() || (Timeout { high_qc: QC { round: 4, ..base_qc.clone() }, ..t.clone() }).digest() == t.digest() { failures.push("timeouts differing in round or high-QC round share a digest".into()); }
+    // kinds never coincide (same numeric content)
+    for _ in 0..50 {
+        let r = rng.next_u64() % 10;
+        let q = QC { hash: d((r % 7) as u8), round: r, votes: Vec::new() };
+        let vv = Vote { hash: q.hash.clone(), round: r, author: *pk0, signature: Signature::default() };
+        let tt = Timeout { high_qc: q.clone(), round: r, author: *pk0, signature: Signature::default() };
+        let bb = Block { qc: q.clone(), tc: None, author: *pk0, round: r, payload: Vec::new(), signature: Signature::default() };
+        if vv.digest() != q.digest() { failures.push("a vote and the QC for the same block/round have different digests (QC signatures would not verify)".into()); }
+        if tt.digest() == vv.digest() || bb.digest() == vv.digest() || bb.digest() == tt.digest() { failures.push(format!("digests of different kinds coincide (round {})", r)); }
+    }
+    // wire / store round trip
+    let bytes = bincode::serialize(&base).unwrap();
+    let back: Block = bincode::deserialize(&bytes).unwrap();
+    if back.digest() != base.digest() || back.verify(&committee()).is_err() != base.verify(&committee()).is_err() { failures.push("a block changes digest or verification result through bincode".into()); }
+    for f in failures.iter().take(4) { println!("FAILING-INPUT property=C20 {}", f); }
+    assert!(failures.is_empty(), "C20 violated on the real code: {:?}", failures);
+}
